@@ -142,6 +142,7 @@ def run (sc : Script) : List String := Id.run do
     | some kind =>
       if kind == "dqnb" then nc := nc + 1
       else if kind == "dqne" then nc := nc - 1
+      else if kind == "self" then pure ()     -- copy-assignment from itself changes nothing
       else
         -- a copied / moved-to queue is a new object: nobody disabled ITS notifications (C10_counters_zero)
         c := if kind == "copy" then c.copyOf else c.moveOf
@@ -181,6 +182,9 @@ def addLine (sc : Script) (line : String) : Script :=
               conds := sc.conds ++ condsOf (splitSemi rest) }
   | ["do", "qcopy", _] => { sc with metas := sc.metas ++ [(sc.dos.length, "copy")], dos := sc.dos ++ [.emptyq] }
   | ["do", "qmove", _] => { sc with metas := sc.metas ++ [(sc.dos.length, "move")], dos := sc.dos ++ [.emptyq] }
+  | ["do", "qassign", _] => { sc with metas := sc.metas ++ [(sc.dos.length, "copy")], dos := sc.dos ++ [.emptyq] }
+  | ["do", "qmoveassign", _] => { sc with metas := sc.metas ++ [(sc.dos.length, "move")], dos := sc.dos ++ [.emptyq] }
+  | ["do", "qselfassign"] => { sc with metas := sc.metas ++ [(sc.dos.length, "self")], dos := sc.dos ++ [.emptyq] }
   | ["do", "dqnb"] => { sc with metas := sc.metas ++ [(sc.dos.length, "dqnb")], dos := sc.dos ++ [.emptyq] }
   | ["do", "dqne"] => { sc with metas := sc.metas ++ [(sc.dos.length, "dqne")], dos := sc.dos ++ [.emptyq] }
   | "do" :: rest =>
